@@ -41,6 +41,6 @@ def run(name):
     line = [l for l in p.stdout.splitlines() if l.startswith("C07 rc=")]
     return "%s [%s]: %s" % (name, ",".join(fams), (line[0] if line else (p.stdout[-200:] + p.stderr[-200:]))[:160])
 names = sys.argv[1:] or sorted(n for n in os.listdir(os.path.join(V, "seeded/equivalent")) if re.match(r"(C\d+-r\d+$)|(e\d+.*\.diff$)", n))
-with cf.ThreadPoolExecutor(max_workers=3) as ex:
+with cf.ThreadPoolExecutor(max_workers=int(os.environ.get("EQUIV_JOBS", "3"))) as ex:
     for l in ex.map(run, names):
         print(l, flush=True)
